@@ -16,14 +16,47 @@ import (
 )
 
 // Req / Res are the payloads of every stream in this monitor.
+// Req and Res carry, besides the flat fields, a map and a slice (reference types: a
+// decoder that reuses its target would leak keys of earlier messages into later ones and
+// overwrite messages already handed out). The gRPC lanes translate to a proto with the
+// flat fields only, so the extras are not carried (and not compared) there.
 type Req struct {
-	Message string `json:"message" msgpack:"message"`
-	ID      int    `json:"id" msgpack:"id"`
+	Message string           `json:"message" msgpack:"message"`
+	ID      int              `json:"id" msgpack:"id"`
+	Labels  map[string]int64 `json:"labels" msgpack:"labels"`
+	Tags    []int64          `json:"tags" msgpack:"tags"`
 }
 
 type Res struct {
-	Message string `json:"message" msgpack:"message"`
-	ID      int    `json:"id" msgpack:"id"`
+	Message string           `json:"message" msgpack:"message"`
+	ID      int              `json:"id" msgpack:"id"`
+	Labels  map[string]int64 `json:"labels" msgpack:"labels"`
+	Tags    []int64          `json:"tags" msgpack:"tags"`
+}
+
+// extras is the deterministic map/slice content of message id.
+func extras(id, size int) (map[string]int64, []int64) {
+	labels := map[string]int64{fmt.Sprintf("k%d", id%7): int64(id), "size": int64(size)}
+	if id%3 == 0 {
+		labels[fmt.Sprintf("only%d", id)] = 1
+	}
+	tags := make([]int64, 0, 4)
+	for i := 0; i < 1+(id+size)%4; i++ {
+		tags = append(tags, int64(id*10+i))
+	}
+	return labels, tags
+}
+
+// xsum is an order-independent checksum of a message's extras.
+func xsum(labels map[string]int64, tags []int64) uint64 {
+	var x uint64 = uint64(len(labels))<<32 | uint64(len(tags))
+	for k, v := range labels {
+		x += sum(k) * uint64(v+7)
+	}
+	for i, t := range tags {
+		x = x*1099511628211 + uint64(t) + uint64(i)
+	}
+	return x
 }
 
 // body is the deterministic content of message id with the given size (ASCII, so that
